@@ -99,7 +99,12 @@ func (r *Response) sendBackResponse(
 }
 
 func createSignature(response *Response, samlResponse *samlp.ResponseType, key *rsa.PrivateKey, cert []byte, signatureAlgorithm string) error {
-	switch response.ProtocolBinding {
+	binding := response.ProtocolBinding
+	if response.AcsUrl == "" {
+		// without consumer URL the response is returned in the body, where only an enveloped signature can protect it
+		binding = PostBinding
+	}
+	switch binding {
 	case PostBinding:
 		if err := createPostSignature(samlResponse, key, cert, signatureAlgorithm); err != nil {
 			return fmt.Errorf("failed to sign response: %w", err)
